@@ -292,6 +292,11 @@ func main() {
 				// outside the async methods) makes the affected proofs undecided; it is not itself a violation
 				nm = "engine/pkg: construct outside the verified subset: " + so.why
 			}
+			if nm == "pkg/wrapper-constructors" {
+				// the by-value model of the scalar boxes is justified only for the plain constructors: with another body the
+				// proofs say nothing about what is stored (binding failure, the oracle decides)
+				nm = "engine/pkg: scalar box constructor is not the plain constructor the model assumes: " + so.why
+			}
 			rep.Failed = append(rep.Failed, FailedOb{nm, "pkg", "", "", so.why})
 		}
 	}
